@@ -1,7 +1,7 @@
 """C17 -- a stricter confidence setting never makes a detector alarm earlier."""
 from .common import A_COMMON
 TARGETS = [("rel", n) for n in ("DDM_drift_scale", "EDDM_drift_thresh", "STEPD_alpha_drift", "PageHinkley_threshold",
-                                "CUSUM_threshold", "ADWIN_delta", "DDM_warning_scale", "EDDM_warning_thresh", "STEPD_alpha_warning")]
+                                "CUSUM_threshold", "ADWIN_delta", "HDM_significance", "DDM_warning_scale", "EDDM_warning_thresh", "STEPD_alpha_warning")]
 LEVEL = "proof"
 ASSUMPTIONS = A_COMMON + [
     "two-run obligation per update: identical statistics and input, only the threshold differs; as long as neither run "
@@ -9,6 +9,8 @@ ASSUMPTIONS = A_COMMON + [
     "over the history (first alarm of the stricter run is never earlier) follows from this simulation step",
     "PageHinkley: thresholds are positive (theta = threshold * mean)",
     "norm.cdf monotone (axiom)",
+    "HDDDM / CDBD: relational obligation on _adaptive_threshold (t.ppf monotone in the level: axiom); kdq-tree alpha, "
+    "NN-DVI alpha, LFR levels: bounded tier only (their thresholds are quantiles of simulated / bootstrapped samples)",
     "ADWIN: the relational obligation is on _check_epsilon (the only place delta is read): equal window statistics, "
     "delta1 <= delta2 => (cut under delta1 => cut under delta2); window of at least 2 inputs, variance >= 0",
 ]
